@@ -59,6 +59,18 @@ def agreeS (env : Env) (renv : REnv) : Nat → RTy → Ty → Bool
                 | some (_, t') => decide (p.2 ≠ .prim .null) && agreeS env renv k t' p.2
                 | none => false)
             | _ => false
+        | .map kt vt, .vec ee =>
+          !(isBlobTy env (.vec ee)) &&
+          (match Sub.traceFull env ee with
+           | some (.record efs) =>
+             (match efs.toList with
+              | [(l0, ek), (l1, ev)] =>
+                decide (l0.getId = 0) && decide (l1.getId = 1) && agreeS env renv k kt ek && agreeS env renv k vt ev &&
+                  (match Sub.traceFull env ek, Sub.traceFull env ev with
+                   | some ek', some ev' => plainShape ek' && plainShape ev'
+                   | _, _ => false)
+              | _ => false)
+           | _ => false)
         | _, _ => false
 
 /-- the two runs end the same way, unless one of them is starved -/
@@ -1425,6 +1437,697 @@ theorem struct_sim (mk : String → NR) (env : Env) (renv : REnv) (k : Nat) (rec
         rw [hmap]
         exact SkipRel.bind _ _ (skip_reserved env k j wt s hg) _ _ (fun v v' s1 hg1 => ih j s1 acc hrest hrestS hg1)
 
+/-- continue both runs after a related pair of intermediate results, whatever flags the native one returned -/
+theorem SimN.bind3 {fl fl0 : Flags} (a : NR) (b : R Val) (h : SimN fl0 a b) (f : Val × Flags → St → NR)
+    (g : Val → St → R Val)
+    (hfg : ∀ v fl1 s1, (fl1 = fl0 ∨ fl1 = Flags.clear) → Good2 s1 → SimN fl (f (v, fl1) s1) (g v (up s1))) :
+    SimN fl (a.bind f) (b.bind g) := by
+  rcases h with h | h | h
+  · rw [h]; exact Or.inl rfl
+  · rw [h]; exact Or.inr (Or.inl rfl)
+  · cases a with
+    | ok p s1 =>
+      obtain ⟨v, fl1⟩ := p
+      cases b with
+      | ok v' s2 =>
+        obtain ⟨e1, e2, e3, e4, e5⟩ := h
+        subst e1 e2
+        exact hfg v fl1 s1 e5 ⟨e3, e4⟩
+      | sub d q => exact absurd h (by simp)
+      | err k => exact absurd h (by simp)
+      | panic x => exact absurd h (by simp)
+    | sub d q =>
+      cases b with
+      | sub d' q' => exact Or.inr (Or.inr h)
+      | ok _ _ => exact absurd h (by simp)
+      | err k => exact absurd h (by simp)
+      | panic x => exact absurd h (by simp)
+    | err k =>
+      cases b with
+      | err k' => exact Or.inr (Or.inr trivial)
+      | ok _ _ => exact absurd h (by simp)
+      | sub d q => exact absurd h (by simp)
+      | panic x => exact absurd h (by simp)
+    | panic x =>
+      cases b with
+      | panic x' => exact Or.inr (Or.inr trivial)
+      | ok _ _ => exact absurd h (by simp)
+      | sub d q => exact absurd h (by simp)
+      | err k => exact absurd h (by simp)
+
+/-- an expected type and its unfolding are decoded alike (budgets aside) -/
+theorem deAny_unfold_e (env : Env) (vis : Visitor) (n n' : Nat) (w et et' : Ty) (st : St) (hu : Unmetered st)
+    (ht : Sub.traceFull env et = some et') : AM (deAny env vis n w et st) (deAny env vis n' w et' st) := by
+  cases n with
+  | zero => rw [deAny_zero]; exact AM.left _
+  | succ n =>
+    cases n' with
+    | zero => rw [deAny_zero]; exact AM.right _
+    | succ n' =>
+      rw [deAny_succ, deAny_succ, unroll_char env n w et st hu, unroll_char env n' w et' st hu]
+      have het' : Sub.traceFull env et' = some et' := by
+        unfold Sub.traceFull
+        exact Check.trace_nonvar env _ et' (Wire.trace_not_var env _ et et' ht)
+      cases h1 : traceAt env n et with
+      | none => exact AM.left _
+      | some a =>
+        cases h2 : traceAt env n' et' with
+        | none => exact AM.right _
+        | some b =>
+          have e1 := traceAt_full env n et a h1
+          have e2 := traceAt_full env n' et' b h2
+          rw [ht] at e1; rw [het'] at e2
+          simp only [Option.some.injEq] at e1 e2
+          subst e1 e2
+          cases h3 : traceAt env n w with
+          | none => exact AM.left _
+          | some c =>
+            cases h4 : traceAt env n' w with
+            | none => exact AM.right _
+            | some d =>
+              have f1 := traceAt_full env n w c h3
+              have f2 := traceAt_full env n' w d h4
+              rw [f1] at f2
+              simp only [Option.some.injEq] at f2
+              subst f2
+              simp only [R.bind]
+              obtain ⟨ihA, ihI, ihR, ihF⟩ := de_fuel_agree env n n'
+              exact deAnyBody_am env vis n n' _ _ _ _ _ _ _ _ (ihA vis) ihI (ihR vis) (ihF vis) _ _ st
+
+/-- the surplus fields of a map entry: skipped on both sides, then the entry's record -/
+theorem skips_sim (mk : String → NR) (env : Env) (k : Nat) : ∀ (extras : List Ty) (j : Nat) (s : St) (acc : List (Label × Val)),
+    Good2 s →
+    SimN Flags.clear
+      ((skipTys mk (deIgnored env k) extras Flags.clear s).bind fun _ s6 => R.ok (Val.record acc.reverse, Flags.clear) s6)
+      (deFields env .idl j (extras.map FieldStep.wireOnly) (up s) acc) := by
+  intro extras
+  induction extras with
+  | nil =>
+    intro j s acc hg
+    cases j with
+    | zero => rw [deFields_zero]; exact SimN.starvedR _ _
+    | succ j =>
+      simp only [skipTys, rbind_ok, List.map_nil]
+      unfold deFields
+      rw [addCost_up s hg.2]
+      exact Or.inr (Or.inr ⟨rfl, rfl, hg.1, hg.2, Or.inl rfl⟩)
+  | cons t ts ih =>
+    intro j s acc hg
+    cases j with
+    | zero => rw [deFields_zero]; exact SimN.starvedR _ _
+    | succ j =>
+      simp only [skipTys, List.map_cons]
+      unfold deFields
+      rw [addCost_unmetered_ok s hg.2, addCost_up s hg.2]
+      simp only [rbind_ok]
+      rw [addCost_up s hg.2]
+      simp only [rbind_ok]
+      rw [addCost_up s hg.2]
+      simp only [rbind_ok, ignF_clear, rbind_assoc, rmap_bind]
+      exact SkipRel.bind _ _ (skip_reserved env k j t s hg) _ _ (fun v v' s1 hg1 => ih j s1 acc hg1)
+
+theorem trace_ge (env : Env) (n : Nat) (t x : Ty) (h : env.trace n t = some x) : ∀ d, env.trace (n + d) t = some x := by
+  intro d
+  induction d with
+  | zero => exact h
+  | succ d ih => exact trace_succ env (n + d) t x ih
+
+/-- with enough budget to unfold it, an expected type and its unfolding are decoded identically -/
+theorem deAny_unfold_eq (env : Env) (vis : Visitor) (M : Nat) (w et et' : Ty) (st : St) (hu : Unmetered st)
+    (hM : env.length + 3 ≤ M) (ht : Sub.traceFull env et = some et') :
+    deAny env vis M w et st = deAny env vis M w et' st := by
+  obtain ⟨M', hM'⟩ : ∃ M', M = M' + 1 := ⟨M - 1, by omega⟩
+  subst hM'
+  rw [deAny_succ, deAny_succ, unroll_char env M' w et st hu, unroll_char env M' w et' st hu]
+  have h1 : traceAt env M' et = some et' := by
+    unfold traceAt
+    split
+    · have := trace_ge env (env.length + 2) et et' ht (M' - (env.length + 2))
+      rw [show env.length + 2 + (M' - (env.length + 2)) = M' from by omega] at this
+      exact this
+    · rename_i hn
+      have : Sub.traceFull env et = some et := by
+        unfold Sub.traceFull
+        exact Check.trace_nonvar env _ et (by intro x hx; subst hx; simp [Sub.isName] at hn)
+      rw [ht] at this
+      exact this.symm ▸ rfl
+  have h2 : traceAt env M' et' = some et' := by
+    unfold traceAt
+    split
+    · rename_i hn
+      -- an unfolding is never a variable; a knot unfolds to itself
+      cases et' <;> simp [Sub.isName] at hn
+      · exact absurd rfl (Wire.trace_not_var env _ et _ ht _)
+      · obtain ⟨M'', h⟩ : ∃ M'', M' = M'' + 1 := ⟨M' - 1, by omega⟩
+        subst h
+        simp [Env.trace]
+    · rfl
+  rw [h1, h2]
+
+/-- `null` on the wire at an expected type that takes no `null`, with enough budget: a subtype failure -/
+theorem null_nonopt_exact (env : Env) (s : St) (hg : Good2 s) (ev ev' : Ty) (ht : Sub.traceFull env ev = some ev')
+    (hp : plainShape ev' = true) (hno : Sub.isOptLikeTy ev' = false) :
+    deAny env .idl (env.length + 3) (.prim .null) ev (up s) = .sub none none := by
+  rcases null_nonopt env s hg ev ev' ht hp hno (env.length + 3) with h | h
+  · exfalso
+    -- not starved: the budget unfolds `ev`
+    rw [deAny_unfold_eq env .idl _ _ ev ev' _ (up_unmetered s hg.2) (by omega) ht] at h
+    have hu := up_unmetered s hg.2
+    have hev' : Sub.traceFull env ev' = some ev' := by
+      unfold Sub.traceFull
+      exact Check.trace_nonvar env _ ev' (Wire.trace_not_var env _ ev ev' ht)
+    rcases null_nonopt env s hg ev' ev' hev' hp hno (env.length + 3) with h2 | h2
+    · -- compute: an unfolded plain shape never starves at this budget
+      rw [deAny_succ, unroll_char env _ (.prim .null) ev' (up s) hu] at h2
+      have hn : traceAt env (env.length + 2) (.prim .null) = some (.prim .null) := by simp [traceAt, Sub.isName]
+      have he : traceAt env (env.length + 2) ev' = some ev' := by
+        unfold traceAt
+        split
+        · rename_i hn'
+          cases ev' <;> simp [Sub.isName] at hn' <;> simp [plainShape] at hp
+        · rfl
+      rw [hn, he] at h2
+      simp only [R.bind, deAnyBody] at h2
+      cases ev' with
+      | prim p =>
+        cases p <;> simp only [Sub.isOptLikeTy] at hno <;> try (exact Bool.noConfusion hno)
+        all_goals (simp [dePrimExact, subErr] at h2)
+      | principal => simp [subErr] at h2
+      | opt _ => simp [Sub.isOptLikeTy] at hno
+      | vec ee =>
+        simp only [] at h2
+        split at h2
+        · unfold deBlobCase at h2
+          have : isBlobTy env (.prim .null) = false := by simp [isBlobTy]
+          simp [this, subErr] at h2
+        · rw [addCost_unmetered_ok (up s) hu] at h2
+          simp [R.bind, deVecCase, subErr] at h2
+      | record efs =>
+        simp only [] at h2
+        rw [addCost_unmetered_ok (up s) hu] at h2
+        simp [R.bind, subErr] at h2
+      | variant efs =>
+        simp only [] at h2
+        rw [addCost_unmetered_ok (up s) hu] at h2
+        simp [R.bind, deVariantCase, subErr] at h2
+      | service ms =>
+        simp only [checkSubtype] at h2
+        rw [addCost_unmetered_ok (up s) hu] at h2
+        simp only [R.bind] at h2
+        have : Sub.subAlg env Sub.defaultFuel (up s).gamma (.prim .null) (.service ms) = .no :=
+          subAlg_null_service env 3999 _ ms
+        rw [this] at h2
+        simp [subErr] at h2
+      | func a r md =>
+        simp only [checkSubtype] at h2
+        rw [addCost_unmetered_ok (up s) hu] at h2
+        simp only [R.bind] at h2
+        have : Sub.subAlg env Sub.defaultFuel (up s).gamma (.prim .null) (.func a r md) = .no :=
+          subAlg_null_func env 3999 _ a r md
+        rw [this] at h2
+        simp [subErr] at h2
+      | _ => simp [plainShape] at hp
+    · rw [h2] at h; simp at h
+  · exact h
+
+/-- the merge step of an expected entry component, with the wire type the native map accessor uses for it -/
+inductive StepFor : FieldStep → Label → Ty → Ty → Prop
+  | both (l : Label) (et wt : Ty) : StepFor (.both l et wt) l et wt
+  | only (l : Label) (et : Ty) : StepFor (.expectOnly l et) l et (.prim .null)
+  | tail (l : Label) (et : Ty) : StepFor (.expectTail l et) l et (.prim .null)
+
+/-- one component of a map entry: the native read at the component's Rust type against the untyped merge step -/
+theorem phase_sim (env : Env) (renv : REnv) (k : Nat) (rec : RTy → Flags → Ty → Ty → St → NR)
+    (hrec : SimAt env renv k rec) (T : RTy) (F : Flags) (step : FieldStep) (l : Label) (et wk et0 : Ty)
+    (hst : StepFor step l et wk) (hag : agreeS env renv k T et = true) (hfit : FlagsFit F wk et) (hswk : srt wk = true)
+    (ht0 : Sub.traceFull env et = some et0) (hp0 : plainShape et0 = true)
+    (rest : List FieldStep) (j : Nat) (s : St) (acc : List (Label × Val)) (hg : Good2 s)
+    (Fk : Val × Flags → St → NR)
+    (hfg : ∀ v fl1 s1, (fl1 = F ∨ fl1 = Flags.clear) → Good2 s1 →
+      SimN Flags.clear (Fk (v, fl1) s1) (deFields env .idl j rest (up s1) ((l, v) :: acc))) :
+    SimN Flags.clear ((rec T F wk et s).bind Fk) (deFields env .idl (j + 1) (step :: rest) (up s) acc) := by
+  unfold deFields
+  rw [addCost_up s hg.2]
+  simp only [rbind_ok]
+  cases hst with
+  | both =>
+    simp only [show (Visitor.idl = Visitor.ignored) = False from by simp, if_false]
+    rw [addCost_up s hg.2]
+    simp only [rbind_ok]
+    rw [addCost_up s hg.2]
+    simp only [rbind_ok]
+    exact SimN.bind3 _ _ (hrec j T F wk et s hag hfit hg hswk) _ _ hfg
+  | tail =>
+    simp only []
+    rw [addCost_up s hg.2]
+    simp only [rbind_ok]
+    rw [addCost_up s hg.2]
+    simp only [rbind_ok]
+    exact SimN.bind3 _ _ (hrec j T F _ et s hag hfit hg hswk) _ _ hfg
+  | only =>
+    simp only []
+    cases h1 : env.trace j et with
+    | none => exact SimN.starvedR _ _
+    | some et' =>
+      have := Sub.traceFull_of_trace env j et et' h1
+      rw [ht0] at this
+      simp only [Option.some.injEq] at this
+      subst this
+      simp only []
+      by_cases hopt : Sub.isOptLikeTy et0 = true
+      · simp only [hopt, Bool.not_true, Bool.false_eq_true, if_false]
+        rw [addCost_up s hg.2]
+        simp only [rbind_ok]
+        rw [addCost_up s hg.2]
+        simp only [rbind_ok]
+        -- the untyped side reads at the unfolded type; with enough budget that is the same run
+        by_cases hlim : deAny env .idl j (.prim .null) et0 (up s) = .err .limit
+        · rw [hlim]; exact SimN.starvedR _ _
+        · have hstable := deAny_stable env .idl (.prim .null) et0 (up s) j _ rfl hlim (env.length + 3)
+          have heq := deAny_unfold_eq env .idl (j + (env.length + 3)) (.prim .null) et et0 (up s) (up_unmetered s hg.2) (by omega) ht0
+          have h0 := hrec (j + (env.length + 3)) T F _ et s hag hfit hg hswk
+          rw [heq, hstable] at h0
+          exact SimN.bind3 _ _ h0 _ _ hfg
+      · simp only [hopt, Bool.not_false, if_true]
+        have hno : Sub.isOptLikeTy et0 = false := by
+          cases h : Sub.isOptLikeTy et0 with
+          | true => exact absurd h hopt
+          | false => rfl
+        have h0 := hrec (env.length + 3) T F _ et s hag hfit hg hswk
+        rw [null_nonopt_exact env s hg et et0 ht0 hp0 hno] at h0
+        have hsub : (subErr (up s) : R Val) = .sub none none := by
+          simp only [subErr, up]; rw [hg.2.1, hg.2.2]
+        rw [hsub]
+        rcases h0 with h | h | h
+        · rw [h]; exact SimN.starvedL _ _
+        · simp at h
+        · cases hx : rec T F (.prim .null) et s with
+          | sub d q => rw [hx] at h; exact Or.inr (Or.inr ⟨h.1, h.2.1, rfl, rfl⟩)
+          | ok _ _ => rw [hx] at h; exact absurd h (by simp)
+          | err x => rw [hx] at h; exact absurd h (by simp)
+          | panic x => rw [hx] at h; exact absurd h (by simp)
+
+theorem mergeFields_nil_left : ∀ (n : Nat) (ws : List (Label × Ty)), ws.length < n →
+    mergeFields n [] ws = ws.map fun p => FieldStep.wireOnly p.2 := by
+  intro n
+  induction n with
+  | zero => intro ws h; omega
+  | succ n ih =>
+    intro ws h
+    cases ws with
+    | nil => rfl
+    | cons p ws' =>
+      obtain ⟨l, t⟩ := p
+      simp only [mergeFields, List.map_cons]
+      rw [ih ws' (by simp at h; omega)]
+
+/-- what the native map accessor takes as key type, value type and surplus fields of a wire entry -/
+def peekKey (ws : List (Label × Ty)) : Ty × List (Label × Ty) :=
+  match ws with
+  | (l, t) :: r => if l.getId = 0 then (t, r) else (.prim .null, ws)
+  | [] => (.prim .null, ws)
+
+def peekVal (ws1 : List (Label × Ty)) : Ty × List (Label × Ty) :=
+  match ws1 with
+  | (l, t) :: r => if l.getId = 1 then (t, r) else (.prim .null, ws1)
+  | [] => (.prim .null, ws1)
+
+/-- the merge of an expected entry `{0 : K; 1 : V}` with a wire entry in ascending order: key step, value step, then the
+surplus fields — exactly the components the native accessor peeks -/
+theorem map_merge_shape (l0 l1 : Label) (ek ev : Ty) (h0 : l0.getId = 0) (h1 : l1.getId = 1) (ws : List (Label × Ty))
+    (hs : strictlyAscending (ws.map (·.1.getId)) = true) (m : Nat) (hm : ws.length ≤ m) :
+    ∃ sk sv, mergeFields (m + 3) [(l0, ek), (l1, ev)] ws =
+        sk :: sv :: (peekVal (peekKey ws).2).2.map (fun p => FieldStep.wireOnly p.2) ∧
+      StepFor sk l0 ek (peekKey ws).1 ∧ StepFor sv l1 ev (peekVal (peekKey ws).2).1 := by
+  have n10 : ¬ ((1 : Nat) = 0) := by omega
+  cases ws with
+  | nil =>
+    refine ⟨.expectTail l0 ek, .expectTail l1 ev, ?_, StepFor.tail l0 ek, StepFor.tail l1 ev⟩
+    simp [mergeFields, peekKey, peekVal]
+  | cons p r =>
+    obtain ⟨a, ta⟩ := p
+    have hr : r.length < m + 1 := by simp at hm; omega
+    by_cases ha0 : a.getId = 0
+    · -- the key is there
+      have ek0 : peekKey ((a, ta) :: r) = (ta, r) := by simp only [peekKey, ha0, if_true]
+      rw [ek0]
+      cases r with
+      | nil =>
+        refine ⟨.both l0 ek ta, .expectTail l1 ev, ?_, StepFor.both l0 ek ta, ?_⟩
+        · simp [mergeFields, peekVal, h0, ha0]
+        · simp only [peekVal]; exact StepFor.tail l1 ev
+      | cons q r' =>
+        obtain ⟨b, tb⟩ := q
+        have hab : a.getId < b.getId := by
+          simp only [List.map_cons, strictlyAscending, Bool.and_eq_true, decide_eq_true_eq] at hs
+          exact hs.1
+        have hr' : r'.length < m := by simp at hr; omega
+        by_cases hb1 : b.getId = 1
+        · have ev0 : peekVal ((b, tb) :: r') = (tb, r') := by simp only [peekVal, hb1, if_true]
+          rw [ev0]
+          refine ⟨.both l0 ek ta, .both l1 ev tb, ?_, StepFor.both l0 ek ta, StepFor.both l1 ev tb⟩
+          simp only [mergeFields, h0, ha0, if_true, h1, hb1]
+          rw [mergeFields_nil_left _ r' (by omega)]
+        · have hb : 1 < b.getId := by omega
+          have ev0 : peekVal ((b, tb) :: r') = (.prim .null, (b, tb) :: r') := by simp only [peekVal, hb1, if_false]
+          rw [ev0]
+          refine ⟨.both l0 ek ta, .expectOnly l1 ev, ?_, StepFor.both l0 ek ta, StepFor.only l1 ev⟩
+          have : ¬ (1 = b.getId) := by omega
+          simp only [mergeFields, h0, ha0, if_true, h1, this, if_false, hb]
+          rw [mergeFields_nil_left m r' hr']; rfl
+    · -- no key on the wire
+      have ha : 0 < a.getId := by omega
+      have ek0 : peekKey ((a, ta) :: r) = (.prim .null, (a, ta) :: r) := by simp only [peekKey, ha0, if_false]
+      rw [ek0]
+      have e1 : ¬ (0 = a.getId) := by omega
+      by_cases ha1 : a.getId = 1
+      · have ev0 : peekVal ((a, ta) :: r) = (ta, r) := by simp only [peekVal, ha1, if_true]
+        rw [ev0]
+        refine ⟨.expectOnly l0 ek, .both l1 ev ta, ?_, StepFor.only l0 ek, StepFor.both l1 ev ta⟩
+        have n01 : ¬ ((0 : Nat) = 1) := by omega
+        have l01 : (0 : Nat) < 1 := by omega
+        simp only [mergeFields, h0, h1, ha1, n01, l01, if_false, if_true]
+        rw [mergeFields_nil_left _ r (by omega)]
+      · have ha2 : 1 < a.getId := by omega
+        have ev0 : peekVal ((a, ta) :: r) = (.prim .null, (a, ta) :: r) := by simp only [peekVal, ha1, if_false]
+        rw [ev0]
+        refine ⟨.expectOnly l0 ek, .expectOnly l1 ev, ?_, StepFor.only l0 ek, StepFor.only l1 ev⟩
+        have e2 : ¬ (1 = a.getId) := by omega
+        simp only [mergeFields, h0, e1, if_false, ha, if_true, h1, e2, ha2]
+        rw [mergeFields_nil_left m r (by simp at hm; omega)]; rfl
+
+theorem srt_peekKey (ws : List (Label × Ty)) (h : ∀ p ∈ ws, srt p.2 = true) :
+    srt (peekKey ws).1 = true ∧ ∀ p ∈ (peekKey ws).2, srt p.2 = true := by
+  unfold peekKey
+  cases ws with
+  | nil => exact ⟨rfl, h⟩
+  | cons p r =>
+    obtain ⟨l, t⟩ := p
+    by_cases hl : l.getId = 0
+    · simp only [hl, if_true]
+      exact ⟨h (l, t) (by simp), fun p hp => h p (by simp [hp])⟩
+    · simp only [hl, if_false]
+      exact ⟨rfl, h⟩
+
+theorem srt_peekVal (ws : List (Label × Ty)) (h : ∀ p ∈ ws, srt p.2 = true) :
+    srt (peekVal ws).1 = true ∧ ∀ p ∈ (peekVal ws).2, srt p.2 = true := by
+  unfold peekVal
+  cases ws with
+  | nil => exact ⟨rfl, h⟩
+  | cons p r =>
+    obtain ⟨l, t⟩ := p
+    by_cases hl : l.getId = 1
+    · simp only [hl, if_true]
+      exact ⟨h (l, t) (by simp), fun p hp => h p (by simp [hp])⟩
+    · simp only [hl, if_false]
+      exact ⟨rfl, h⟩
+
+theorem fits_text (wk ek : Ty) :
+    FlagsFit ⟨none, decide (ek = .prim .text) && decide (wk = .prim .text)⟩ wk ek := by
+  refine ⟨?_, ?_, ?_, ?_⟩ <;> simp
+
+theorem fits_bigOf (wv ev : Ty) : FlagsFit ⟨bigOf ev wv, false⟩ wv ev := by
+  cases h : bigOf ev wv with
+  | none => exact FlagsFit.clear wv ev
+  | some b => exact fits_big b wv ev h
+
+/-- one entry of a map: the native accessor (key, value, surplus fields) against the untyped record rule -/
+theorem entry_sim (mk : String → NR) (env : Env) (renv : REnv) (k : Nat) (rec : RTy → Flags → Ty → Ty → St → NR)
+    (hrec : SimAt env renv k rec) (kt vt : RTy) (ee : Ty) (efs wfs : Fields) (l0 l1 : Label) (ek ev ek' ev' : Ty)
+    (hte : Sub.traceFull env ee = some (.record efs)) (hefs : efs.toList = [(l0, ek), (l1, ev)])
+    (h0 : l0.getId = 0) (h1 : l1.getId = 1)
+    (hak : agreeS env renv k kt ek = true) (hav : agreeS env renv k vt ev = true)
+    (htk : Sub.traceFull env ek = some ek') (htv : Sub.traceFull env ev = some ev')
+    (hpk : plainShape ek' = true) (hpv : plainShape ev' = true)
+    (hsw : srt (.record wfs) = true) (m : Nat) (s : St) (hg : Good2 s) :
+    SimN Flags.clear
+      (withFlags Flags.clear
+        (entryN mk rec (deIgnored env k) kt vt l0 l1 ek ev (peekKey wfs.toList).1 (peekVal (peekKey wfs.toList).2).1
+          ((peekVal (peekKey wfs.toList).2).2.map fun p => p.2)
+          (decide (ek = .prim .text) && decide ((peekKey wfs.toList).1 = .prim .text))
+          (bigOf ev (peekVal (peekKey wfs.toList).2).1) s))
+      (deAny env .idl m (.record wfs) ee (up s)) := by
+  have hu := hg.2
+  simp only [srt, Bool.and_eq_true] at hsw
+  have hall : ∀ p ∈ wfs.toList, srt p.2 = true := fun p hp => srtF_mem wfs p hsw.2 hp
+  obtain ⟨hswk, hall1⟩ := srt_peekKey wfs.toList hall
+  obtain ⟨hswv, _⟩ := srt_peekVal (peekKey wfs.toList).2 hall1
+  cases m with
+  | zero => rw [deAny_zero]; exact SimN.starvedR _ _
+  | succ j =>
+    rw [deAny_succ, unroll_char env j _ ee (up s) (up_unmetered s hu)]
+    cases h1e : traceAt env j ee with
+    | none => exact SimN.starvedR _ _
+    | some e' =>
+      have := traceAt_full env j ee e' h1e
+      rw [hte] at this
+      simp only [Option.some.injEq] at this
+      subst this
+      have hw : traceAt env j (.record wfs) = some (.record wfs) := by simp [traceAt, Sub.isName]
+      rw [hw]
+      simp only [rbind_ok]
+      unfold deAnyBody
+      simp only []
+      rw [addCost_up s hu]
+      simp only [rbind_ok, hefs]
+      obtain ⟨sk, sv, hmerge, hsk, hsv⟩ := map_merge_shape l0 l1 ek ev h0 h1 wfs.toList hsw.1 wfs.toList.length (Nat.le_refl _)
+      rw [show [(l0, ek), (l1, ev)].length + wfs.toList.length + 1 = wfs.toList.length + 3 from by simp; omega, hmerge]
+      cases j with
+      | zero => rw [deFields_zero]; exact SimN.starvedR _ _
+      | succ j1 =>
+        unfold entryN withFlags
+        rw [addCost_unmetered_ok s hu]
+        simp only [rbind_ok]
+        have hpre : ∀ (c : Bool) (n : Nat) (st : St), Unmetered st →
+            (if c = true then R.ok () st else addCost st n) = R.ok () st := by
+          intro c n st h
+          cases c
+          · simp only [Bool.false_eq_true, if_false]; exact addCost_unmetered_ok st h n
+          · rfl
+        rw [hpre _ _ s hu]
+        simp only [rbind_ok, rmap_bind, rbind_assoc]
+        refine phase_sim env renv k rec hrec kt _ sk l0 ek _ ek' hsk hak (fits_text _ _) hswk htk hpk _ j1 s [] hg _ ?_
+        intro kv fl1 s1 _ hg1
+        rw [hpre _ _ s1 hg1.2]
+        simp only [rbind_ok]
+        cases j1 with
+        | zero => rw [deFields_zero]; exact SimN.starvedR _ _
+        | succ j2 =>
+          refine phase_sim env renv k rec hrec vt _ sv l1 ev _ ev' hsv hav (fits_bigOf _ _) hswv htv hpv _ j2 s1 _ hg1 _ ?_
+          intro vv fl2 s2 hfl2 hg2
+          have hcl : ({ fl2 with big := none } : Flags) = Flags.clear := by
+            rcases hfl2 with x | x <;> subst x <;> rfl
+          simp only [hcl]
+          have := skips_sim mk env k ((peekVal (peekKey wfs.toList).2).2.map fun p => p.2) j2 s2 [(l1, vv), (l0, kv)] hg2
+          simp only [List.map_map, List.reverse_cons, List.reverse_nil, List.nil_append, List.cons_append] at this
+          exact this
+
+/-- a record expected at a wire type that is no record: a subtype failure, given the budget to see it -/
+theorem record_at_nonrecord (env : Env) (m : Nat) (wire ee : Ty) (efs : Fields) (s : St) (hg : Good2 s)
+    (hte : Sub.traceFull env ee = some (.record efs)) (hwf : Sub.traceFull env wire = some wire)
+    (hnr : ∀ wfs, wire ≠ .record wfs) :
+    deAny env .idl m wire ee (up s) = .err .limit ∨ deAny env .idl m wire ee (up s) = .sub none none := by
+  cases m with
+  | zero => left; rfl
+  | succ j =>
+    rw [deAny_succ, unroll_char env j _ ee (up s) (up_unmetered s hg.2)]
+    cases h1e : traceAt env j ee with
+    | none => left; rfl
+    | some e' =>
+      have := traceAt_full env j ee e' h1e
+      rw [hte] at this
+      simp only [Option.some.injEq] at this
+      subst this
+      cases h1w : traceAt env j wire with
+      | none => left; rfl
+      | some w'' =>
+        have := traceAt_full env j wire w'' h1w
+        rw [hwf] at this
+        simp only [Option.some.injEq] at this
+        subst this
+        right
+        simp only [rbind_ok]
+        unfold deAnyBody
+        simp only []
+        rw [addCost_up s hg.2]
+        simp only [rbind_ok]
+        have hsub : (subErr (up s) : R Val) = .sub none none := by
+          simp only [subErr, up]; rw [hg.2.1, hg.2.2]
+        cases wire with
+        | record wfs => exact absurd rfl (hnr wfs)
+        | _ => exact hsub
+
+/-- after the entries of a map the native accessor is asked once more and answers `None` -/
+theorem SimL.mapEnd (x b : R (List Val)) (h : SimL Flags.clear (x.map fun vs => (vs, Flags.clear)) b) :
+    SimN Flags.clear ((x.bind fun es s => (addCost s 4).bind fun _ s' => R.ok es s').map fun es => (Val.vec es, Flags.clear))
+      (b.map Val.vec) := by
+  rcases h with h | h | h
+  · left
+    cases x <;> simp [R.map, R.bind] at h ⊢
+    exact h
+  · right; left; rw [h]; rfl
+  · cases x with
+    | ok es s1 =>
+      cases b with
+      | ok vs' s2 =>
+        simp only [R.map, R.bind] at h
+        obtain ⟨e1, e2, e3, _⟩ := h
+        subst e1 e2
+        simp only [rbind_ok]
+        rw [addCost_unmetered_ok s1 e3.2]
+        exact Or.inr (Or.inr ⟨rfl, rfl, e3.1, e3.2, Or.inl rfl⟩)
+      | sub d q => simp [R.map, R.bind] at h
+      | err y => simp [R.map, R.bind] at h
+      | panic y => simp [R.map, R.bind] at h
+    | sub d q =>
+      cases b with
+      | sub d' q' => simp only [R.map, R.bind] at h; exact Or.inr (Or.inr h)
+      | ok _ _ => simp [R.map, R.bind] at h
+      | err y => simp [R.map, R.bind] at h
+      | panic y => simp [R.map, R.bind] at h
+    | err y =>
+      cases b with
+      | err y' => exact Or.inr (Or.inr trivial)
+      | ok _ _ => simp [R.map, R.bind] at h
+      | sub d q => simp [R.map, R.bind] at h
+      | panic y' => simp [R.map, R.bind] at h
+    | panic y =>
+      cases b with
+      | panic y' => exact Or.inr (Or.inr trivial)
+      | ok _ _ => simp [R.map, R.bind] at h
+      | sub d q => simp [R.map, R.bind] at h
+      | err y' => simp [R.map, R.bind] at h
+
+/-- the entries of a map: `deserialize_map` against the untyped vector of records -/
+theorem map_sim (mk : String → NR) (env : Env) (renv : REnv) (k m : Nat) (rec : RTy → Flags → Ty → Ty → St → NR)
+    (hrec : SimAt env renv k rec) (hse : SortedEnv env) (kt vt : RTy) (ww ee : Ty) (efs : Fields) (l0 l1 : Label)
+    (ek ev ek' ev' : Ty)
+    (hte : Sub.traceFull env ee = some (.record efs)) (hefs : efs.toList = [(l0, ek), (l1, ev)])
+    (h0 : l0.getId = 0) (h1 : l1.getId = 1)
+    (hak : agreeS env renv k kt ek = true) (hav : agreeS env renv k vt ev = true)
+    (htk : Sub.traceFull env ek = some ek') (htv : Sub.traceFull env ev = some ev')
+    (hpk : plainShape ek' = true) (hpv : plainShape ev' = true)
+    (hsw : srt ww = true) (s : St) (hg : Good2 s) :
+    SimN Flags.clear (nMapCase mk env k rec (deIgnored env k) kt vt ww ee s)
+      (deVecCase env .idl m (deAny env .idl m) (deIgnored env m) (.vec ww) ee (up s)) := by
+  unfold nMapCase deVecCase
+  simp only []
+  cases h1e : env.trace k ee with
+  | none => exact SimN.starvedL _ _
+  | some e' =>
+    have := Sub.traceFull_of_trace env k ee e' h1e
+    rw [hte] at this
+    simp only [Option.some.injEq] at this
+    subst this
+    cases h1w : env.trace k ww with
+    | none => exact SimN.starvedL _ _
+    | some wire =>
+      cases h2w : env.trace m ww with
+      | none => exact SimN.starvedR _ _
+      | some wire2 =>
+        have := Sub.trace_det env k m ww wire wire2 h1w h2w
+        subst this
+        have hswire : srt wire = true := srt_trace env hse k ww wire hsw h1w
+        have hwf0 := Sub.traceFull_of_trace env k ww wire h1w
+        have hwf : Sub.traceFull env wire = some wire := by
+          unfold Sub.traceFull
+          exact Check.trace_nonvar env _ wire (Wire.trace_not_var env _ ww wire hwf0)
+        have hex : exactPrim ee wire = none := by
+          cases ee with
+          | prim p => rw [traceFull_prim] at hte; simp at hte
+          | _ => rfl
+        have hbig : bigPrimOf ee wire = none := by
+          cases ee with
+          | prim p => rw [traceFull_prim] at hte; simp at hte
+          | _ => rfl
+        simp only [hex, hbig]
+        rw [rd_up]
+        have hsubs : ∀ st : St, Good2 st → (subErr (up st) : R Val) = .sub none none := by
+          intro st h; simp only [subErr, up]; rw [h.2.1, h.2.2]
+        -- the element of the untyped run
+        have hg_elem : ∀ st : St, Good2 st →
+            ((addCost (up st) 3).bind fun _ s' =>
+              if Visitor.idl = Visitor.ignored then deIgnored env m wire s' else deAny env .idl m wire ee s') =
+            deAny env .idl m wire ee (up st) := by
+          intro st h
+          rw [addCost_up st h.2]
+          simp only [rbind_ok, show (Visitor.idl = Visitor.ignored) = False from by simp, if_false]
+        by_cases hrecd : ∃ wfs, wire = .record wfs
+        · obtain ⟨wfs, hw⟩ := hrecd
+          subst hw
+          simp only [hefs, h0, h1, and_self, if_true]
+          cases hr : rd readLenDe s with
+          | sub d q =>
+            have := (Fine.ofRd readLenDe s hg).2 d q hr
+            exact Or.inr (Or.inr ⟨this.1, this.2, this.1, this.2⟩)
+          | err x => exact Or.inr (Or.inr trivial)
+          | panic x => exact Or.inr (Or.inr trivial)
+          | ok n s2 =>
+            have hg2 := (Fine.ofRd readLenDe s hg).1 n s2 hr
+            simp only [lift, rbind_ok]
+            have hcost : (if (decide (ek = .prim .text) && decide ((peekKey wfs.toList).1 = .prim .text) ||
+                  (bigOf ev (peekVal (peekKey wfs.toList).2).1).isSome) = true
+                then (if n * 7 > usizeMax then R.err .limit else addCost s2 (n * 7)) else R.ok () s2) = R.err .limit ∨
+              (if (decide (ek = .prim .text) && decide ((peekKey wfs.toList).1 = .prim .text) ||
+                  (bigOf ev (peekVal (peekKey wfs.toList).2).1).isSome) = true
+                then (if n * 7 > usizeMax then R.err .limit else addCost s2 (n * 7)) else R.ok () s2) = R.ok () s2 := by
+              split
+              · split
+                · left; rfl
+                · right; exact addCost_unmetered_ok s2 hg2.2 _
+              · right; rfl
+            show SimN Flags.clear
+              ((if (decide (ek = .prim .text) && decide ((peekKey wfs.toList).1 = .prim .text) ||
+                  (bigOf ev (peekVal (peekKey wfs.toList).2).1).isSome) = true
+                then (if n * 7 > usizeMax then R.err .limit else addCost s2 (n * 7)) else R.ok () s2).bind fun _ s3 =>
+                (mapLoop mk rec (deIgnored env k) kt vt l0 l1 ek ev (peekKey wfs.toList).1 (peekVal (peekKey wfs.toList).2).1
+                  ((peekVal (peekKey wfs.toList).2).2.map fun p => p.2)
+                  (decide (ek = .prim .text) && decide ((peekKey wfs.toList).1 = .prim .text))
+                  (bigOf ev (peekVal (peekKey wfs.toList).2).1) n s3).map fun es => (Val.vec es, Flags.clear)) _
+            rcases hcost with hc | hc
+            · rw [hc]; exact SimN.starvedL _ _
+            · rw [hc]
+              simp only [rbind_ok]
+              rw [mapLoop_as_iter]
+              apply SimL.mapEnd
+              rw [← iterF_withFlags]
+              refine iter_sim _ _ Flags.clear (fun fl st hfl hgs => ?_) n Flags.clear s2 (Or.inl rfl) hg2
+              have hcl : fl = Flags.clear := by rcases hfl with x | x <;> exact x
+              subst hcl
+              rw [hg_elem st hgs]
+              exact entry_sim mk env renv k rec hrec kt vt ee efs wfs l0 l1 ek ev ek' ev' hte hefs h0 h1 hak hav htk htv hpk hpv
+                hswire m st hgs
+        · -- the entries on the wire are no records: only the empty map is there to read
+          have hnr : ∀ wfs, wire ≠ .record wfs := fun wfs h => hrecd ⟨wfs, h⟩
+          cases wire with
+          | record wfs => exact absurd rfl (hnr wfs)
+          | _ =>
+            simp only []
+            cases hr : rd readLenDe s with
+            | sub d q =>
+              have := (Fine.ofRd readLenDe s hg).2 d q hr
+              exact Or.inr (Or.inr ⟨this.1, this.2, this.1, this.2⟩)
+            | err x => exact Or.inr (Or.inr trivial)
+            | panic x => exact Or.inr (Or.inr trivial)
+            | ok n s2 =>
+              have hg2 := (Fine.ofRd readLenDe s hg).1 n s2 hr
+              simp only [lift, rbind_ok]
+              cases n with
+              | zero =>
+                simp only [iterV, ne_eq, not_true, if_false]
+                rw [addCost_unmetered_ok s2 hg2.2]
+                exact Or.inr (Or.inr ⟨rfl, rfl, hg2.1, hg2.2, Or.inl rfl⟩)
+              | succ n' =>
+                simp only [ne_eq, Nat.add_one_ne_zero, not_false_eq_true, if_true]
+                unfold iterV
+                rw [hg_elem s2 hg2]
+                have hsn : (subErr s2 : NR) = .sub none none := by
+                  simp only [subErr]; rw [hg2.2.1, hg2.2.2]
+                rw [hsn]
+                rcases record_at_nonrecord env m _ ee efs s2 hg2 hte hwf hnr with h | h <;> rw [h]
+                · exact SimN.starvedR _ _
+                · exact Or.inr (Or.inr ⟨rfl, rfl, rfl, rfl⟩)
+
 theorem agreeS_traces {env : Env} {renv : REnv} {k : Nat} {t : RTy} {e : Ty} (ha : agreeS env renv (k + 1) t e = true)
     (h1 : ∀ t', t ≠ .newtype t') (h2 : ∀ x, t ≠ .ref x) : ∃ e', Sub.traceFull env e = some e' := by
   cases ht : Sub.traceFull env e with
@@ -2125,7 +2828,70 @@ theorem deNBody_sim (mk : String → NR) (env : Env) (tl : Nat) (renv : REnv) (k
   | array n t' => obtain ⟨e0, ht0⟩ := agreeS_traces ha (by simp) (by simp); simp only [agreeS, ht0] at ha; cases e0 <;> simp at ha
   | bounded a b c t' => obtain ⟨e0, ht0⟩ := agreeS_traces ha (by simp) (by simp); simp only [agreeS, ht0] at ha; cases e0 <;> simp at ha
   | tuple ts => obtain ⟨e0, ht0⟩ := agreeS_traces ha (by simp) (by simp); simp only [agreeS, ht0] at ha; cases e0 <;> simp at ha
-  | map kt vt => obtain ⟨e0, ht0⟩ := agreeS_traces ha (by simp) (by simp); simp only [agreeS, ht0] at ha; cases e0 <;> simp at ha
+  | map kt vt =>
+    obtain ⟨e0, ht0⟩ := agreeS_traces ha (by simp) (by simp)
+    obtain ⟨ee, efs, l0, l1, ek, ev, ek', ev', he0, hnblob, hte, hefs, h0, h1, hak, hav, htk, htv, hpk, hpv⟩ :
+        ∃ ee efs l0 l1 ek ev ek' ev', e0 = .vec ee ∧ isBlobTy env (.vec ee) = false ∧
+          Sub.traceFull env ee = some (.record efs) ∧ efs.toList = [(l0, ek), (l1, ev)] ∧ l0.getId = 0 ∧ l1.getId = 1 ∧
+          agreeS env renv k kt ek = true ∧ agreeS env renv k vt ev = true ∧
+          Sub.traceFull env ek = some ek' ∧ Sub.traceFull env ev = some ev' ∧
+          plainShape ek' = true ∧ plainShape ev' = true := by
+      simp only [agreeS, ht0] at ha
+      cases e0 with
+      | vec ee =>
+        simp only [Bool.and_eq_true, Bool.not_eq_true'] at ha
+        obtain ⟨hb, hm⟩ := ha
+        cases hq1 : Sub.traceFull env ee with
+        | none => rw [hq1] at hm; simp at hm
+        | some r =>
+          rw [hq1] at hm
+          cases r with
+          | record efs =>
+            simp only [] at hm
+            cases hq2 : efs.toList with
+            | nil => rw [hq2] at hm; simp at hm
+            | cons p0 r0 =>
+              obtain ⟨l0, ek⟩ := p0
+              cases r0 with
+              | nil => rw [hq2] at hm; simp at hm
+              | cons p1 r1 =>
+                obtain ⟨l1, ev⟩ := p1
+                cases r1 with
+                | cons _ _ => rw [hq2] at hm; simp at hm
+                | nil =>
+                  rw [hq2] at hm
+                  simp only [Bool.and_eq_true, decide_eq_true_eq] at hm
+                  obtain ⟨⟨⟨⟨a0, a1⟩, a2⟩, a3⟩, a4⟩ := hm
+                  cases hq3 : Sub.traceFull env ek with
+                  | none => rw [hq3] at a4; simp at a4
+                  | some ek' =>
+                    cases hq4 : Sub.traceFull env ev with
+                    | none => rw [hq3, hq4] at a4; simp at a4
+                    | some ev' =>
+                      rw [hq3, hq4] at a4
+                      simp only [Bool.and_eq_true] at a4
+                      exact ⟨ee, efs, l0, l1, ek, ev, ek', ev', rfl, hb, hq1, hq2, a0, a1, a2, a3, hq3, hq4, a4.1, a4.2⟩
+          | _ => simp at hm
+      | _ => simp at ha
+    subst he0
+    have hcl : fl = Flags.clear := flags_clear_of env fl w e _ hf ht0 (by simp) (by simp) (by simp)
+    subst hcl
+    unfold deNBody
+    simp only []
+    rw [deAny_succ]
+    refine sim_unroll env k m _ w e s hg _ _ fun w' e' he' hw' => ?_
+    rw [ht0] at he'
+    simp only [Option.some.injEq] at he'
+    subst he'
+    simp only [deAnyBody, hnblob, Bool.false_eq_true, if_false]
+    rw [addCost_unmetered_ok s hg.2, addCost_up s hg.2]
+    simp only [rbind_ok]
+    cases w' with
+    | vec ww =>
+      simp only []
+      exact map_sim mk env renv k m rec hrec hse kt vt ww ee efs l0 l1 ek ev ek' ev' hte hefs h0 h1 hak hav htk htv hpk hpv
+        (by have := srt_traceFull env hse w _ hsw hw'; simpa [srt] using this) s hg
+    | _ => simp only [deVecCase]; exact SimN.sub _ s hg.2
 
 
 /-- **native decoding agrees with untyped decoding**, at every pair of depth budgets -/
